@@ -279,6 +279,142 @@ Fixpoint all_ws (s : string) : bool :=
 
 Definition text_bytes (s : string) : string := show_bytes (bytes_of_string s).
 
+
+(* tx.steps: one object through observe / mutate / observe sequences (see harness/src/ops_c18.rs) *)
+Definition new_in : txin := mk_txin (repeat x77 32) 9 [BOp 82] 8 None None.
+Definition new_out (v : N) : txout := mk_txout v [BOp 83].
+Fixpoint set_nth {A} (n : nat) (x : A) (l : list A) : list A :=
+  match l, n with
+  | [], _ => []
+  | _ :: r, O => x :: r
+  | y :: r, S k => y :: set_nth k x r
+  end.
+Fixpoint insert_nth {A} (n : nat) (x : A) (l : list A) : list A :=
+  match n, l with
+  | O, _ => x :: l
+  | S k, y :: r => y :: insert_nth k x r
+  | S _, [] => [x]
+  end.
+Definition idx_val (s : string) : option (nat * string) :=
+  match split ":" s with
+  | i :: v :: r =>
+      match N_of_dec i with
+      | Some n => if (n <=? 100000)%N then Some (N.to_nat n, join ":" (v :: r)) else None
+      | None => None
+      end
+  | _ => None
+  end.
+Definition dec_le (bound : N) (s : string) : option N :=
+  match N_of_dec s with Some n => if (n <=? bound)%N then Some n else None | None => None end.
+Definition u32max : N := 4294967295%N.
+
+Inductive step_res := SOk (t : tx) (obs : option fmt) | SErr | SBad.
+Definition upd_in (t : tx) (i : nat) (g : txin -> txin) : step_res :=
+  match nth_error (inputs t) i with
+  | Some x => SOk (mk_tx (version t) (set_nth i (g x) (inputs t)) (outputs t) (locktime t)) None
+  | None => SBad
+  end.
+Definition step1 (t : tx) (st : string) : step_res :=
+  match st with
+  | "j" => SOk t (Some Json)
+  | "c" => SOk t (Some Cbor)
+  | "h" => SOk t None
+  | "k" => SOk t None
+  | "r" => match de_tx Json (ser_tx t) with Ok t2 => SOk t2 None | _ => SErr end
+  | "R" => match de_tx Cbor (ser_tx t) with Ok t2 => SOk t2 None | _ => SErr end
+  | "ai" => SOk (mk_tx (version t) (inputs t ++ [new_in]) (outputs t) (locktime t)) None
+  | "pi" => SOk (mk_tx (version t) (new_in :: inputs t) (outputs t) (locktime t)) None
+  | String "v" r | String "V" r =>
+      match dec_le u32max r with Some n => SOk (mk_tx n (inputs t) (outputs t) (locktime t)) None | None => SBad end
+  | String "l" r | String "L" r =>
+      match dec_le u32max r with Some n => SOk (mk_tx (version t) (inputs t) (outputs t) n) None | None => SBad end
+  | String "i" (String k r) =>
+      match idx_val r with
+      | None => SBad
+      | Some (i, v) =>
+          match k with
+          | "q"%char => match dec_le u32max v with
+                        | Some n => upd_in t i (fun x => mk_txin (prev_tx_id x) (vout x) (unlocking x) n (locking x) (satoshis x))
+                        | None => SBad end
+          | "o"%char => match dec_le u32max v with
+                        | Some n => upd_in t i (fun x => mk_txin (prev_tx_id x) n (unlocking x) (sequence x) (locking x) (satoshis x))
+                        | None => SBad end
+          | "a"%char => match dec_le u64max v with
+                        | Some n => upd_in t i (fun x => mk_txin (prev_tx_id x) (vout x) (unlocking x) (sequence x) (locking x) (Some n))
+                        | None => SBad end
+          | "p"%char => match expand v with
+                        | Some bs => upd_in t i (fun x => mk_txin bs (vout x) (unlocking x) (sequence x) (locking x) (satoshis x))
+                        | None => SBad end
+          | "l"%char | "u"%char =>
+              match expand v with
+              | None => SBad
+              | Some bs =>
+                  match nth_error (inputs t) i with
+                  | None => SBad
+                  | Some _ =>
+                      match from_bytes bs with
+                      | Ok sc =>
+                          if Ascii.eqb k "l"%char
+                          then upd_in t i (fun x => mk_txin (prev_tx_id x) (vout x) (unlocking x) (sequence x) (Some sc) (satoshis x))
+                          else upd_in t i (fun x => mk_txin (prev_tx_id x) (vout x) sc (sequence x) (locking x) (satoshis x))
+                      | _ => SErr
+                      end
+                  end
+              end
+          | _ => SBad
+          end
+      end
+  | String "n" (String "i" r) =>
+      match N_of_dec r with
+      | Some n => if (n <=? N.of_nat (length (inputs t)))%N
+                  then SOk (mk_tx (version t) (insert_nth (N.to_nat n) new_in (inputs t)) (outputs t) (locktime t)) None else SBad
+      | None => SBad
+      end
+  | String "a" (String "o" r) =>
+      match dec_le u64max r with Some n => SOk (mk_tx (version t) (inputs t) (outputs t ++ [new_out n]) (locktime t)) None | None => SBad end
+  | String "p" (String "o" r) =>
+      match dec_le u64max r with Some n => SOk (mk_tx (version t) (inputs t) (new_out n :: outputs t) (locktime t)) None | None => SBad end
+  | String "n" (String "o" r) =>
+      match idx_val r with
+      | Some (i, v) => match dec_le u64max v with
+                       | Some n => if Nat.leb i (length (outputs t))
+                                   then SOk (mk_tx (version t) (inputs t) (insert_nth i (new_out n) (outputs t)) (locktime t)) None else SBad
+                       | None => SBad end
+      | None => SBad
+      end
+  | String "s" (String "o" r) =>
+      match idx_val r with
+      | Some (i, v) => match dec_le u64max v with
+                       | Some n => if Nat.ltb i (length (outputs t))
+                                   then SOk (mk_tx (version t) (inputs t) (set_nth i (new_out n) (outputs t)) (locktime t)) None else SBad
+                       | None => SBad end
+      | None => SBad
+      end
+  | _ => SBad
+  end.
+
+(* returns impl, spec, known *)
+Fixpoint run_steps (t : tx) (sts : list string) (impl spec known : string) : string :=
+  match sts with
+  | [] => out3 impl spec known
+  | st :: r =>
+      match step1 t st with
+      | SBad => "BADARG"
+      | SErr => out3 "ERR" "-" "-"
+      | SOk t' None => run_steps t' r impl spec known
+      | SOk t' (Some f) =>
+          let text := match f with Json => text_bytes (json_of (ser_tx t')) | Cbor => show_bytes (cbor_of (ser_tx t')) end in
+          let back := match de_tx f (ser_tx t') with
+                      | Ok t2 => let sb := bit01 (bytes_eqb (tx_bytes t') (tx_bytes t2)) in show_tx t2 +++ ";" +++ sb +++ sb +++ ";000"
+                      | _ => "ERR;--;---"
+                      end in
+          let k := if String.eqb known "nesting-exceeds-decoder-limit" then known
+                   else if exceeds_limit f (ser_tx t') then "nesting-exceeds-decoder-limit"
+                   else if tx_has_cb t' then "coinbase-script-bit" else known in
+          run_steps t' r (impl +++ ";" +++ text +++ ";" +++ back) (spec +++ ";*;" +++ show_tx t' +++ ";11;000") k
+      end
+  end.
+
 Definition run (op : string) (args : list string) : string :=
   match op, args with
   | "tx.json_roundtrip", [w; e] => with_tx w e (run_roundtrip Json)
@@ -292,6 +428,8 @@ Definition run (op : string) (args : list string) : string :=
       | None => "BADARG"
       end
   | "tx.cached_roundtrip", [w; e] => with_tx w e run_cached
+  | "tx.steps", [w; e; st] =>
+      with_tx w e (fun t => if existsb (String.eqb "") (split "," st) then "BADARG" else run_steps t (split "," st) "OK:v" "OK:v" "-")
   | "bits.cached_roundtrip", [a] => match bits_arg a with Some s => run_cached (bits_tx s) | None => "BADARG" end
   (* the same value rebuilt through new / set_version / set_nlocktime / add_inputs / add_input / add_outputs /
      add_output / set_input / set_output: same model *)
